@@ -57,6 +57,7 @@ Section P.
     destruct e1 as [e|].
     - intros H. injection H as <- <- <-. exact Eff.
     - destruct (forallb (forallb enc) row) eqn:E; intros H; injection H as <- <- <-; cbn; destruct Eff; auto.
+      split; [reflexivity|]. destruct (Nat.leb (c_header c) (l_line (w_loc w)) || df_fixed (c_fmt c)); reflexivity.
   Qed.
   Lemma write_all_enc_emits enc (c : cid CS) : forall rows w wf es,
     write_all_enc enc c w rows = (wf, es) ->
